@@ -339,7 +339,7 @@ def adjust_intervals(
             # add a new boundary and label
             intervals = np.vstack(([t_min, intervals.min()], intervals))
             if labels is not None:
-                labels.insert(0, start_label)
+                labels = [start_label] + list(labels)
 
     if t_max is not None:
         # Find the intervals that begin at or after t_max
@@ -364,7 +364,7 @@ def adjust_intervals(
             # Last boundary is below t_max: add a new boundary and label
             intervals = np.vstack((intervals, [intervals.max(), t_max]))
             if labels is not None:
-                labels.append(end_label)
+                labels = list(labels) + [end_label]
 
     return intervals, labels
 
@@ -416,7 +416,7 @@ def adjust_events(events, labels=None, t_min=0.0, t_max=None, label_prefix="__")
             # add a new boundary and label
             events = np.concatenate(([t_min], events))
             if labels is not None:
-                labels.insert(0, "%sT_MIN" % label_prefix)
+                labels = ["%sT_MIN" % label_prefix] + list(labels)
 
     if t_max is not None:
         last_idx = np.argwhere(events > t_max)
@@ -432,7 +432,7 @@ def adjust_events(events, labels=None, t_min=0.0, t_max=None, label_prefix="__")
             # Last boundary is below t_max: add a new boundary and label
             events = np.concatenate((events, [t_max]))
             if labels is not None:
-                labels.append("%sT_MAX" % label_prefix)
+                labels = list(labels) + ["%sT_MAX" % label_prefix]
 
     return events, labels
 
